@@ -23,6 +23,22 @@ def demand_csv():
     return os.path.join(runner.REPO, 'src', 'geophires_x', 'Examples', 'cornell_heat_demand.csv')
 
 
+def daily_demand_csv():
+    """a 365-row daily demand file (MWh/day) derived from the shipped hourly one; written once per scratch root, re-created on demand"""
+    path = os.path.join(runner.SCRATCH_ROOT, f'vf-static-{os.getuid()}', 'daily_heat_demand.csv')
+    if not os.path.exists(path):
+        os.makedirs(os.path.dirname(path), exist_ok=True)
+        with open(demand_csv(), encoding='utf-8-sig') as f:
+            rows = [float(l.split(',')[1]) for l in f.read().splitlines()[1:] if l.strip()]
+        tmp = path + f'.{os.getpid()}'
+        with open(tmp, 'w') as f:
+            f.write('day,MWh\n')
+            for d in range(365):
+                f.write(f'{d + 1},{sum(rows[d * 24:(d + 1) * 24])!r}\n')
+        os.replace(tmp, path)
+    return path
+
+
 def base(econ=1, enduse=1, plant=1, res=4, shape=(5, 3, 2), redrill=False) -> OrderedDict:
     L, n, cy = shape
     d = OrderedDict()
